@@ -488,4 +488,108 @@ theorem attempts_spec (P : SProto Q) (cls : Bytes → Ev) (lim : Limits) (req : 
       refine ⟨this.1, by have := this.2.1; have := hs.1; simp only; omega, by have := this.2.2.1; simp only; omega,
         by have := this.2.2.2; simp only; omega⟩
 
+/-! ### recovery -/
+
+/-- only time passes -/
+def Quiet (es : List SEv) : Prop := ∀ e ∈ es, ∃ ms, e = .peer (.advance ms)
+
+theorem await_quiet (P : SProto Q) (ready : Sys Q → Bool) (dl : Option Nat) (s : Sys Q) (es : List SEv) (hq : Quiet es) :
+    (await P ready dl s es).2.1.up = s.up ∧ (await P ready dl s es).2.1.serve = s.serve ∧
+    (await P ready dl s es).2.1.raOn = s.raOn ∧ (await P ready dl s es).2.1.nconn = s.nconn ∧
+    (await P ready dl s es).2.1.conn = s.conn ∧ Quiet (await P ready dl s es).2.2 := by
+  induction es generalizing s with
+  | nil =>
+    unfold await
+    split
+    · exact ⟨rfl, rfl, rfl, rfl, rfl, hq⟩
+    · split <;> exact ⟨rfl, rfl, rfl, rfl, rfl, hq⟩
+  | cons e es ih =>
+    obtain ⟨ms, rfl⟩ := hq e (by simp)
+    have hq' : Quiet es := fun e he => hq e (by simp [he])
+    unfold await
+    split
+    · exact ⟨rfl, rfl, rfl, rfl, rfl, hq⟩
+    · simp only
+      split
+      · split
+        · refine ⟨rfl, rfl, rfl, rfl, rfl, ?_⟩
+          intro e he
+          simp only [List.mem_cons] at he
+          rcases he with rfl | he
+          · exact ⟨_, rfl⟩
+          · exact hq' e he
+        · exact ih _ hq'
+      · exact ih _ hq'
+
+theorem reconnect_up (P : SProto Q) (s : Sys Q) (es : List SEv) (hup : s.up = true) (hra : s.raOn = true) :
+    reconnect P s es = (.ok, accept P (closeConn s), es) := by
+  unfold reconnect
+  simp only
+  split
+  · simp [doipPoll, closeConn, accept, hup, hra, doipWindow]
+  · simp [closeConn, hup]
+
+/-- the peer's answer `b` to `req`, delivered on a fresh connection, is acknowledged and read as the message `d` -/
+def Answers (P : SProto Q) (req b d : Bytes) : Prop :=
+  ∀ idx, ∃ c1 c2, tryAck P req ((PConn.fresh P idx).feed P b) = .done .wrote c1 ∧ tryRead P c1 = .done (.data d) c2 ∧
+    ((PConn.fresh P idx).feed P b).live = true
+
+theorem opRequest_served (P : SProto Q) (req b d : Bytes) (ha : Answers P req b d) (s : Sys Q) (es : List SEv) (tmo : Option Nat)
+    (hs : s.serve = some b) (idx : Nat) (hc : s.conn = PConn.fresh P idx) :
+    ∃ s4, opRequest P s es req tmo = (.data d, s4, es) ∧ s4.nconn = s.nconn := by
+  obtain ⟨c1, c2, h1, h2, h3⟩ := ha idx
+  have hlive : s.conn.live = true := by rw [hc]; rfl
+  have hpw : (putWire P s req).conn = (PConn.fresh P idx).feed P b := by
+    have hl2 : (PConn.fresh P idx).live = true := rfl
+    unfold putWire; simp only [hs, hc, hl2, if_true]
+  have hw : opWrite P s es req tmo = (.wrote, { putWire P s req with conn := c1 }, es) := by
+    unfold opWrite
+    simp only [hpw, h1]
+  unfold opRequest
+  rw [hw]
+  simp only
+  unfold opRead
+  simp only [h2]
+  refine ⟨_, rfl, ?_⟩
+  unfold putWire; simp only [hs, hlive, if_true]
+
+theorem recovers (P : SProto Q) (cls : Bytes → Ev) (lim : Limits) (req : Bytes) (tmo : Option Nat) (k : Nat)
+    (s : Sys Q) (es : List SEv) (r : PRes) (s1 : Sys Q) (es1 : List SEv) (b d : Bytes)
+    (hloss : opRequest P s es req tmo = (r, s1, es1)) (hr : r = .connErr ∨ r = .eos)
+    (hup : s1.up = true) (hsrv : s1.serve = some b) (hra : s1.raOn = true) (hq : Quiet es1)
+    (ha : Answers P req b d) (hd : d ≠ []) (hcls : cls d = .posFinal) :
+    (request P cls { maxRetry := k + 1, lim } req tmo s es).1 = .reply d ∧
+    (request P cls { maxRetry := k + 1, lim } req tmo s es).2.1.nconn = s1.nconn + 1 := by
+  -- first attempt: the loss surfaces, backoff, one reconnect
+  have hsl := await_quiet P (fun _ => false) (some (s1.now + waitMs lim 0)) s1 es1 hq
+  obtain ⟨u1, u2, u3, u4, _, u6⟩ := hsl
+  have hstep : attemptStep P cls lim req tmo true 0 s es (.missing false) =
+      .next (accept P (closeConn (sleep P (waitMs lim 0) s1 es1).1)) (sleep P (waitMs lim 0) s1 es1).2 (.missing true) := by
+    unfold attemptStep
+    rw [hloss]
+    rcases hr with rfl | rfl <;>
+    · simp only [afterLoss, if_true]
+      rw [reconnect_up P _ _ (by unfold sleep; rw [u1, hup]) (by unfold sleep; rw [u3, hra])]
+  -- second attempt: on the fresh connection the peer answers at once
+  obtain ⟨s4, h4, n4⟩ := opRequest_served P req b d ha (accept P (closeConn (sleep P (waitMs lim 0) s1 es1).1))
+    (sleep P (waitMs lim 0) s1 es1).2 tmo (by unfold sleep; simp only [accept, closeConn]; rw [u2, hsrv]) _ rfl
+  have hstep2 : ∀ retry last, attemptStep P cls lim req tmo retry 1 (accept P (closeConn (sleep P (waitMs lim 0) s1 es1).1))
+      (sleep P (waitMs lim 0) s1 es1).2 last = .fin (.reply d) s4 (sleep P (waitMs lim 0) s1 es1).2 := by
+    intro retry last
+    unfold attemptStep
+    rw [h4]
+    cases d with
+    | nil => exact absurd rfl hd
+    | cons x xs => simp only [hcls]
+  have hn : s4.nconn = s1.nconn + 1 := by
+    rw [n4]; unfold sleep; simp only [accept, closeConn]; rw [u4]
+  unfold request
+  simp only
+  unfold attempts
+  rw [hstep]
+  simp only
+  cases k with
+  | zero => unfold attempts; rw [hstep2]; exact ⟨rfl, hn⟩
+  | succ k => unfold attempts; rw [hstep2]; exact ⟨rfl, hn⟩
+
 end Gallia.LossSys
